@@ -728,7 +728,7 @@ def _stack_base_counted(b):
     return len(good) == 1
 
 
-@rule("REPEAT-ITER", ["C06", "C01", "C02", "C20", "C16"], floor=8)
+@rule("REPEAT-ITER", ["C06", "C01", "C02", "C20", "C16", "C12"], floor=8)
 def repeat_iter(ctx):
     """Repeat::matches_iter: the priming loop and the iterator stack are bounded by min(max, remaining+1) (the
     bound that makes the greedy repeat finite whatever its body matches); a greedy repeat is driven by
@@ -780,11 +780,33 @@ def repeat_iter(ctx):
             _rec(d, "zero-iteration-offered", len(once) == 1 and pushes[0] == once[0], "with min == 0 the zero-iteration alternative once(position) must be the first (least preferred) entry of the iterator stack; pushes %s" % [c[1][1:] for c in cs if c[0] == "Vec::push"][:3], loc)
         if greedy and "!eq(0, a1.min)" in gs:
             _rec(d, "no-zero-iteration", not z and not once, "with min > 0 there is no zero-iteration alternative", loc)
+    # the priming loop goes on until the bound is reached or an iteration fails: nothing else ends it (an iteration
+    # that matched nothing still counts towards min)
+    for h, blocks in b.natural_loops().items():
+        hg = [_sh(strip_ver(g)) for g in guard_strings(b, h, ctx.senv(b))]
+        if "a1.greedy" not in hg:
+            continue
+        for p in ctx.walk(b, start_bb=h).paths:
+            if p.end.startswith("loop") or p.end != "return":
+                continue
+            gs = [_sh(strip_ver(g)) for g in summarize(p)[0]]
+            stop = [g for g in gs if g.endswith("=None") and "next(" in g]
+            _rec(d, "priming-stops-only-at-bound-or-failure", bool(stop), "the priming loop of the greedy repeat is left although the bound is not reached and the iteration matched (guards %s): iterations that are still owed to min are not made" % gs[:4], b.loc(p.blocks[-1]))
     G = "<op_repeat::GreedyRepeatIterator as std::iter::Iterator>::next"
     gb = ctx.body(G)
     if gb is None:
         d["GreedyRepeat|missing"] = [False, "GreedyRepeatIterator::next missing", None]
     else:
+        for h, blocks in gb.natural_loops().items():
+            # the extension loop: the one whose turns begin with the test of the stack against the bound
+            rp = [(p, [strip_ver(g) for g in summarize(p)[0]]) for p in ctx.walk(gb, start_bb=h, max_visits=1).paths]
+            if not rp or not all(gs and gs[0].lstrip("!") == "lt(len(a1.iterators), a1.bound)" for _, gs in rp):
+                continue
+            for p, gs in rp:
+                if p.end == "loop:%d" % h:
+                    continue
+                stop = gs[0].startswith("!") or (len(gs) > 1 and gs[1].endswith("=None") and "matches_iter(" in gs[1])
+                _rec(d, "greedy|extension-stops-only-at-bound-or-failure", stop, "after backtracking the greedy repeat stops adding iterations although the stack is below its bound and the iteration matched (guards %s)" % gs[:3], gb.loc(p.blocks[-1]))
         for p in checked(d, "greedy-repeat-next", gb, ctx.walk(gb, max_visits=1).paths, only=lambda p: p.end == "return"):
             gs, r = summarize(p)
             gs = [strip_ver(g) for g in gs]
@@ -992,7 +1014,9 @@ def recursion_scc(ctx):
             if user == members:
                 hit = k
         if hit:
-            out.append(ok("scc|" + hit))
+            i_ = ok("scc|" + hit)
+            i_.optional = True  # a recursion that was removed cannot harm termination
+            out.append(i_)
             continue
         # structural recursion over the Operation tree through the trait (incl. the iterator web)
         if all(any(("::" + m) in n or n.endswith("::" + m) for m in structural_methods) for n in user) and all(("OperationControl" in n or "Iterator" in n or "Iterator::new" in n or n.split("::")[-2].endswith("Iterator")) for n in user):
@@ -1000,9 +1024,8 @@ def recursion_scc(ctx):
             out.append(ok("scc|operation-tree|" + ",".join(kind)[:60]))
             continue
         out.append(bad("scc|new|" + sorted(user)[0], "new recursive cycle in the call graph, not in the audited set: %s" % sorted(user)[:4], ctx.f.body(sorted(user)[0]).loc()))
-    for k, (members, why, deep) in audited.items():
-        if not any(members <= {c.split("::{closure")[0] for c in comp} for comp in found):
-            out.append(bad("scc|gone|" + k, "audited recursive component %s no longer exists as audited (re-audit the recursion)" % k, None))
+    # (an audited component that no longer exists is not reported: removing a recursion cannot harm termination or the
+    # stack; a component that changed its members shows up above as a new one)
     # receiver check for the two unconditional self-recursions
     for m in ("complement", "build"):
         P = "character_class::CharacterClassBuilder::" + m
